@@ -290,6 +290,21 @@ def run_task(task: dict) -> dict:
         # --- the segment: 1-4 appended batches, optional garbage after the last one
         nb = rng.choice((1, 1, 2, 3, 4))
         models = [model_for(rng, stats) for _ in range(nb)]
+        if rng.random() < 0.15:
+            # twin batches: identical checksummed bytes (same CRC, same length), but a
+            # different partition leader epoch / base offset - fields outside the CRC
+            m0, origin0 = models[rng.randrange(nb)]
+            tw = dict(m0)
+            if rng.random() < 0.6:
+                tw["ple"] = (m0["ple"] + rng.choice((1, 7, -1))) if -(2**31) < m0["ple"] < 2**31 - 8 else 0
+            else:
+                shift = rng.choice((1, 1000))
+                if all(-(2**63) <= r["off"] + shift < 2**63 for r in m0["records"]) and m0["base_off"] + shift < 2**63:
+                    tw["base_off"] = m0["base_off"] + shift
+                    tw["records"] = [{**r, "off": r["off"] + shift} for r in m0["records"]]
+            models.append((tw, "twin"))
+            nb += 1
+            stats.inc("workload_twin_batches_same_crc")
         blobs = [refbatch.encode(m) for m, _ in models]
         tail = rng.randbytes(rng.choice((0, 0, 1, 7, 30)))
         segment = b"".join(blobs) + tail
@@ -459,9 +474,11 @@ def _model_candidates(m: dict):
                 yield {**m, "records": recs[:i] + [{**r, k: ""}] + recs[i + 1:]}
         if r["hdrs"]:
             yield {**m, "records": recs[:i] + [{**r, "hdrs": []}] + recs[i + 1:]}
-    for k in ("ple", "pid", "pep", "bseq", "attrs"):
+    for k in ("ple", "pid", "pep", "bseq"):
         if m[k] != 0:
             yield {**m, k: 0}
+    if m["attrs"] not in (0, 8):
+        yield {**m, "attrs": m["attrs"] & 8}  # keep the timestamp-type bit: it decides whether max_ts bounds the records
 
 
 def candidates(scenario: dict):
@@ -523,6 +540,7 @@ def finalize(stats, tier, runs, distinct, samples, wall):
     problems = []
     for k in ("fault_flip", "fault_cut", "fault_multi", "fault_burst", "fault_magic", "fault_setcrc", "fault_torn_tail", "workload_broker_fixture",
               "workload_kio_written", "workload_reference_whole_second", "workload_reference_sub_second", "workload_reference_empty_batch",
+              "workload_twin_batches_same_crc",
               "intact_fully_exact_whole_second"):
         if not stats.get(k):
             problems.append(f"probe {k} never fired")
